@@ -45,7 +45,7 @@ RECURSIVE Toks(_, _, _, _)
 Toks(gg, b, p, acc) ==
   LET q == D!SkipWs(b, p, D!WsSet(opt)) IN
   IF q = Len(b) THEN <<TRUE, acc>>
-  ELSE LET lx == LexDispatch(gg, b, q) IN IF lx[1] = -1 THEN <<FALSE, acc>> ELSE Toks(gg, b, q + lx[2], Append(acc, lx[1]))
+  ELSE LET lx == LexDispatch(gg, b, q, {}) IN IF lx[1] = -1 THEN <<FALSE, acc>> ELSE Toks(gg, b, q + lx[2], Append(acc, lx[1]))
 
 LangOf == TLCEval([gg \in 1..NG |-> Lang(Gs[gg], L)[Gs[gg].root]])
 PrefOf == TLCEval([gg \in 1..NG |-> PrefLang(Gs[gg], L)[Gs[gg].root]])
